@@ -452,8 +452,10 @@ def wal_cut_points(points, root, max_images=2, span=120):
     return extra
 
 
-def recover_images(binary, image_dirs, keys_hex, nkeys, timeout_per=20, chunk=40, decode=False, cont=False):
-    """run the real recovery (vdrv dbread) on every image directory; returns {dir: result dict}"""
+def recover_images(binary, image_dirs, keys_hex, nkeys, timeout_per=20, chunk=40, decode=False, cont=False, remat=None):
+    """run the real recovery (vdrv dbread) on every image directory; returns {dir: result dict}.
+    remat: {dir: callable that rebuilds the pristine image} - recovery changes the directory it runs on, so an image whose chunk died or was
+    stopped at its deadline must be rebuilt before it is recovered alone (otherwise the second run sees the work of the first)"""
     results = {}
 
     def run_chunk(dirs, tmo):
@@ -474,13 +476,20 @@ def recover_images(binary, image_dirs, keys_hex, nkeys, timeout_per=20, chunk=40
     chunks = [image_dirs[i:i + chunk] for i in range(0, len(image_dirs), chunk)]
 
     def work(dirs):
-        got, to, rc, err = run_chunk(dirs, timeout_per * 2 + len(dirs))
+        got, to, rc, err = run_chunk(dirs, timeout_per * 4 + 3 * len(dirs))
         missing = [d for d in dirs if d not in got]
+        def pristine(d):
+            if remat and d in remat:
+                shutil.rmtree(d, ignore_errors=True)
+                shutil.rmtree(d + ".kill", ignore_errors=True)
+                remat[d]()
         for d in missing:
-            # the chunk died or hung inside this image (or after it): run it alone
+            # the chunk died or hung inside this image (or after it): run it alone, on a rebuilt image
+            pristine(d)
             g1, to1, rc1, err1 = run_chunk([d], timeout_per)
             if d not in g1 and to1:
                 # a slow machine is not a hang: give it one generous retry before calling it one
+                pristine(d)
                 g1, to1, rc1, err1 = run_chunk([d], timeout_per * 6)
             if d in g1:
                 got[d] = g1[d]
